@@ -240,11 +240,11 @@ theorem binopLoop_mono {nme nm f m l cost pa na x} (h : binopLoop nme nm f m l c
 /-! `unknownMul`: its equation lemmas cannot be generated within the default recursion depth, so the
 unfolding equations are stated by hand (`rfl`) and the induction uses `unknownMul.induct`. -/
 
-theorem unknownMul_nil {nm : Bool} {m d cost l0 : Nat} {fi : Bool} :
+theorem unknownMul_nil_eq {nm : Bool} {m d cost l0 : Nat} {fi : Bool} :
     unknownMul nm m d [] cost l0 fi = .ok cost := rfl
 
 set_option maxRecDepth 8000 in
-theorem unknownMul_cons {nm : Bool} {maxCost sqDiv cost l0 : Nat} {firstIter : Bool} {arg : Val} {rest : List Val} :
+theorem unknownMul_cons_eq {nm : Bool} {maxCost sqDiv cost l0 : Nat} {firstIter : Bool} {arg : Val} {rest : List Val} :
     unknownMul nm maxCost sqDiv (arg :: rest) cost l0 firstIter =
     match atomLen arg "unknown op" with
     | .error e => .error e
@@ -296,12 +296,12 @@ theorem unknownMul_ok {nm : Bool} {m d : Nat} {l : List Val} {cost l0 : Nat} {fi
   cases nm
   · induction l, cost, l0, fi using unknownMul.induct (nm := false) (maxCost := m) (sqDiv := d) <;>
       intro h <;> rename_i ih <;> loop_prep <;>
-      simp only [unknownMul_nil, unknownMul_cons, *, ↓reduceIte, Bool.false_eq_true] at h <;>
-      loop_ok_core unknownMul_cons ih h
+      simp only [unknownMul_nil_eq, unknownMul_cons_eq, *, ↓reduceIte, Bool.false_eq_true] at h <;>
+      loop_ok_core unknownMul_cons_eq ih h
   · induction l, cost, l0, fi using unknownMul.induct (nm := true) (maxCost := m) (sqDiv := d) <;>
       intro h <;> rename_i ih <;> loop_prep <;>
-      simp only [unknownMul_nil, unknownMul_cons, *, ↓reduceIte, Bool.false_eq_true] at h <;>
-      loop_ok_core unknownMul_cons ih h
+      simp only [unknownMul_nil_eq, unknownMul_cons_eq, *, ↓reduceIte, Bool.false_eq_true] at h <;>
+      loop_ok_core unknownMul_cons_eq ih h
 
 set_option maxRecDepth 4000 in
 theorem unknownMul_mono {nm : Bool} {m d : Nat} {l : List Val} {cost l0 : Nat} {fi : Bool} {x : Except Err _}
@@ -311,12 +311,12 @@ theorem unknownMul_mono {nm : Bool} {m d : Nat} {l : List Val} {cost l0 : Nat} {
   cases nm
   · induction l, cost, l0, fi using unknownMul.induct (nm := false) (maxCost := m) (sqDiv := d) <;>
       intro h <;> loop_prep <;>
-      simp only [unknownMul_nil, unknownMul_cons, *, ↓reduceIte, Bool.false_eq_true] at h <;>
-      loop_mono_core unknownMul_cons hne hle h
+      simp only [unknownMul_nil_eq, unknownMul_cons_eq, *, ↓reduceIte, Bool.false_eq_true] at h <;>
+      loop_mono_core unknownMul_cons_eq hne hle h
   · induction l, cost, l0, fi using unknownMul.induct (nm := true) (maxCost := m) (sqDiv := d) <;>
       intro h <;> loop_prep <;>
-      simp only [unknownMul_nil, unknownMul_cons, *, ↓reduceIte, Bool.false_eq_true] at h <;>
-      loop_mono_core unknownMul_cons hne hle h
+      simp only [unknownMul_nil_eq, unknownMul_cons_eq, *, ↓reduceIte, Bool.false_eq_true] at h <;>
+      loop_mono_core unknownMul_cons_eq hne hle h
 
 /-! ### fast paths of `op_add` / `op_subtract` -/
 
